@@ -64,14 +64,14 @@ Definition paged_server {item} (items : list item) (q : request) : response item
 Record pg_in := { pg_n : nat; pg_size : nat; pg_flt : pfilter }.
 Record pg_req := { o_page : nat; o_size : nat; o_name : option bytes;
                    o_regex : option bytes; o_pagination : bool }.
-Record pg_obs := { pg_result : list nat; pg_reqs : list pg_req; pg_fuel_out : bool }.
+Record pg_obs := { pg_result : list N; pg_reqs : list pg_req; pg_fuel_out : bool }.
 
 Definition to_obs_req (q : request) : pg_req :=
   {| o_page := q_page q; o_size := q_size q; o_name := q_name q;
      o_regex := q_regex q; o_pagination := q_pagination q |}.
 
 Definition pg_model (i : pg_in) : pg_obs :=
-  let items := seq 0 (pg_n i) in
+  let items := map N.of_nat (seq 0 (pg_n i)) in
   match list_pages (paged_server items) (S (nceil (pg_n i) (pg_size i))) (pg_flt i) (pg_size i) with
   | Some (res, reqs) => {| pg_result := res; pg_reqs := map to_obs_req reqs; pg_fuel_out := false |}
   | None => {| pg_result := []; pg_reqs := []; pg_fuel_out := true |}
@@ -83,7 +83,7 @@ Definition pg_req_eqb (a b : pg_req) : bool :=
   option_eqb bytes_eqb (o_regex a) (o_regex b) &&
   Bool.eqb (o_pagination a) (o_pagination b).
 Definition pg_obs_eqb (a b : pg_obs) : bool :=
-  list_eqb Nat.eqb (pg_result a) (pg_result b) &&
+  list_eqb N.eqb (pg_result a) (pg_result b) &&
   list_eqb pg_req_eqb (pg_reqs a) (pg_reqs b) &&
   Bool.eqb (pg_fuel_out a) (pg_fuel_out b).
 
@@ -91,7 +91,7 @@ Definition pg_obs_eqb (a b : pg_obs) : bool :=
    every request, stops after the last page *)
 Definition pg_prop_ok (i : pg_in) (o : pg_obs) : bool :=
   negb (pg_fuel_out o) &&
-  list_eqb Nat.eqb (pg_result o) (seq 0 (pg_n i)) &&
+  list_eqb N.eqb (pg_result o) (map N.of_nat (seq 0 (pg_n i))) &&
   list_eqb Nat.eqb (map o_page (pg_reqs o)) (seq 1 (Nat.max 1 (nceil (pg_n i) (pg_size i)))) &&
   forallb (fun q => Nat.eqb (o_size q) (pg_size i) &&
                     option_eqb bytes_eqb (o_name q) (f_name (pg_flt i)) &&
